@@ -103,6 +103,32 @@ func genC10(tier string, seed uint64) *simkit.Plan {
 			ev.N = r.Pick(6, 2) // 1: the alert is delivered twice to some survivor
 		}
 		p.AddStep(ev)
+		if ev.Via == "alert" && r.Chance(0.3) {
+			// the same peer again: it comes back (fresh metrics), is given pins again,
+			// and fails a second time - handled like the first time
+			p.AddStep(Step{Op: "metric", Target: ev.Target, Name: "ok", Value: fmt.Sprintf("%d", r.Range(1, 5)*100), DelayMs: r.Range(1000, 5000)})
+			for k, m := 0, r.Range(1, 3); k < m; k++ {
+				c := r.Intn(npins)
+				st := Step{Op: "seed", Cid: c, Name: "again"}
+				fp := factorPairs[1+r.Intn(len(factorPairs)-1)]
+				st.RMin, st.RMax = fp[0], fp[1]
+				if st.RMin > 0 {
+					kk := r.Range(st.RMin, st.RMax)
+					if kk > n {
+						kk = n
+					}
+					if kk < 1 {
+						kk = 1
+					}
+					perm := r.Perm(n)
+					st.Allocs = append([]int{ev.Target}, perm[:kk]...)[:kk]
+				}
+				p.AddStep(st)
+			}
+			ev2 := Step{Op: "fail", Target: ev.Target, DelayMs: r.Range(0, 2000), Via: "alert", Order: r.Perm(n), Overlap: r.Chance(0.7), N: r.Pick(6, 2)}
+			p.AddStep(ev2)
+			p.SetKnob("second_failure", 1)
+		}
 	}
 	if r.Chance(0.45) {
 		p.AddStep(Step{Op: "sync", DelayMs: r.Range(1, 60) * 1000, Order: r.Perm(n), Overlap: r.Chance(0.7)})
